@@ -17,7 +17,7 @@ def run(chk):
                       % (p["run"].get("errors"), p["files"]), {"files": p["files"], "main": p["main"], "errors": p["run"].get("errors")})
     acc, nev = sem.validate(chk, progs)
     # model leg: the ideal machine (no real VM) on the real bytecode of the same sources simulates TheoSem
-    nref = sem.refine(chk, th, progs[::(3 if not chk.thorough else 2)])
+    nref = sem.refine(chk, th, progs[::max(3, len(progs) // 6000)])
     chk.cov["programs_in_model_leg_TheoRefine"] = nref
     ok = [p for p in progs if "run" in p and p["run"]["ok"]]
     timeouts = sum(1 for p in ok if not p["run"]["finished"])
